@@ -776,6 +776,9 @@ func (t *T) fail(now bool, msg string) {
 	t.mu.Lock()
 	defer t.mu.Unlock()
 
+	if msg == "" {
+		msg = "(*T).Fail() called with an empty message" // t.failed doubles as the "has failed" flag: never store ""
+	}
 	t.failed = stopTest(msg)
 	if now {
 		panic(t.failed)
